@@ -1,5 +1,157 @@
+(* C12/Props.v -- pinned property theorems for C12; statements in full, closed by `exact`.
+   `mstep`/`mrun` are the model step/run with the two structural flags regenerated from
+   distributed_tx.rs (Gen_C12) -- Inst.gen_finish_spec re-proves on every run that they are `true`. *)
 From NV.Common Require Import Base LockTable LockTableFacts.
 From NV.C12 Require Import Model Proofs Inst.
+From NV.gen Require Import Gen_C12.
 Open Scope N_scope.
-Theorem C12_placeholder : True. Proof. exact I. Qed.
-Print Assumptions C12_placeholder.
+
+Notation mstep := (step gen_finish_releases gen_finish_unwaits).
+Notation mrun := (run gen_finish_releases gen_finish_unwaits).
+
+(* Clause "a prepare that meets a held key is refused with a conflict rather than granted":
+   in every reachable state, a request (plain or wait-tracked) containing a key held by another
+   unexpired transaction returns Err and leaves the lock table unchanged. *)
+Theorem C12_conflicting_prepare_refused : forall ops tmo0 maxe0 tx keys p o k a,
+  o = OTryLock tx keys \/ o = OTryLockWait tx keys p ->
+  let s := mrun (init tmo0 maxe0) ops in
+  In k keys -> holder (now s) (tbl s) k = Some a -> a <> tx ->
+  exists b r, snd (mstep s o) = 1 :: b :: r /\ tbl (fst (mstep s o)) = tbl s.
+Proof.
+  intros ops tmo0 maxe0 tx keys p o k a Ho s. apply lock_refused_when_held.
+  destruct Ho as [-> | ->]; [left; reflexivity|right; eexists; reflexivity].
+Qed.
+
+(* Clause "granting is all-or-nothing over the requested key set": the outcome of a request is either a
+   handle with EVERY requested key now held by the requester, or a refusal naming a real unexpired foreign
+   holder of a requested key with the lock table untouched. *)
+Theorem C12_grant_all_or_nothing : forall ops tmo0 maxe0 tx keys p o,
+  o = OTryLock tx keys \/ o = OTryLockWait tx keys p ->
+  let s := mrun (init tmo0 maxe0) ops in
+  let s' := fst (mstep s o) in let ret := snd (mstep s o) in
+  (exists h, ret = [0; h] /\ forall k, In k keys -> holder (now s') (tbl s') k = Some tx)
+  \/ (exists b r, ret = 1 :: b :: r /\ tbl s' = tbl s /\ b <> tx /\
+        exists k, In k keys /\ holder (now s) (tbl s) k = Some b).
+Proof.
+  intros ops tmo0 maxe0 tx keys p o Ho s. apply lock_all_or_nothing.
+  destruct Ho as [-> | ->]; [left; reflexivity|right; eexists; reflexivity].
+Qed.
+
+(* Clause "each key is locked by at most one unexpired transaction": the table maps a key to one lock, and
+   nothing a DIFFERENT transaction requests or releases changes the holder of a key that is held and unexpired. *)
+Theorem C12_one_holder : forall ops tmo0 maxe0 tx keys p o k a,
+  o = OTryLock tx keys \/ o = OTryLockWait tx keys p \/ o = ORelease tx ->
+  let s := mrun (init tmo0 maxe0) ops in
+  holder (now s) (tbl s) k = Some a -> a <> tx ->
+  holder (now (fst (mstep s o))) (tbl (fst (mstep s o))) k = Some a.
+Proof.
+  intros ops tmo0 maxe0 tx keys p o k a Ho s. apply (foreign_holder_kept _ _ _ _ tx keys).
+  destruct Ho as [-> | [-> | ->]]; [left; left; reflexivity|left; right; eexists; reflexivity|right; reflexivity].
+Qed.
+
+(* Clause "none left behind", LockManager::release: in every reachable state release(tx) removes every lock of tx
+   (this is the forward-index invariant: each held key is listed under its owner). *)
+Theorem C12_release_leaves_nothing : forall ops tmo0 maxe0 tx k e,
+  let s := mrun (init tmo0 maxe0) ops in
+  aget (locks (tbl (fst (mstep s (ORelease tx))))) k = Some e -> owner e <> tx.
+Proof. intros ops tmo0 maxe0 tx k e s. exact (release_leaves_no_lock s tx (reachable_SInv _ _ _ _ ops) k e). Qed.
+
+(* Clause "when a transaction commits, aborts or times out, none of its locks remain and it no longer appears
+   as waiter or holder in the wait-for graph": OFinish tx hs is the lock/graph effect of
+   DistributedTxCoordinator::{commit, abort} on tx for ANY set hs of recorded vote handles. *)
+Theorem C12_finish_leaves_nothing : forall ops tmo0 maxe0 tx hs,
+  let s' := fst (mstep (mrun (init tmo0 maxe0) ops) (OFinish tx hs)) in
+  (forall k e, aget (locks (tbl s')) k = Some e -> owner e <> tx) /\
+  (forall x y, In y (succs (gr s') x) -> x <> tx /\ y <> tx) /\
+  (forall x y, In x (preds (gr s') y) -> x <> tx /\ y <> tx).
+Proof.
+  intros ops tmo0 maxe0 tx hs. cbn [step fst]. destruct gen_finish_spec as [-> ->].
+  exact (finish_Clean _ tx hs (reachable_SInv _ _ _ _ ops)).
+Qed.
+
+(* ... and cleanup_timeouts: every transaction it times out is clean after the whole call
+   (all timed-out transactions finished, then the expired-lock sweep). *)
+Theorem C12_timeouts_leave_nothing : forall ops tmo0 maxe0 fin f, In f fin ->
+  let s' := fst (mstep (mrun (init tmo0 maxe0) ops) (OTimeouts fin)) in
+  (forall k e, aget (locks (tbl s')) k = Some e -> owner e <> fst f) /\
+  (forall x y, In y (succs (gr s') x) -> x <> fst f /\ y <> fst f) /\
+  (forall x y, In x (preds (gr s') y) -> x <> fst f /\ y <> fst f).
+Proof.
+  intros ops tmo0 maxe0 fin f Hf. destruct gen_finish_spec as [-> ->].
+  exact (timeouts_Clean fin _ (reachable_SInv _ _ _ _ ops) f Hf).
+Qed.
+
+(* Expiry: a lock past its timeout is not a holder (lazy check), and the sweep removes exactly the expired locks. *)
+Theorem C12_expiry : forall ops tmo0 maxe0,
+  let s := mrun (init tmo0 maxe0) ops in
+  (forall k e, aget (locks (tbl s)) k = Some e -> timeout e < now s - acquired e -> holder (now s) (tbl s) k = None) /\
+  (forall k, holder (now s) (fst (cleanup_expired (now s) (tbl s))) k = holder (now s) (tbl s) k) /\
+  (forall k e, aget (locks (fst (cleanup_expired (now s) (tbl s)))) k = Some e -> expired (now s) e = false).
+Proof.
+  intros ops tmo0 maxe0 s. split; [intros k e; apply expired_not_held|].
+  exact (sweep_exact s (reachable_SInv _ _ _ _ ops)).
+Qed.
+
+(* Clause "the deadlock detector reports a cycle exactly when the recorded wait-for relations contain one":
+   for EVERY neighbour order `succ`, every start order and any fuel that suffices, provided every node with an
+   outgoing edge is a start (edges.keys()): each reported list is a cycle, and the report is non-empty iff some
+   node reaches itself. *)
+Theorem C12_cycle_reported_iff_exists : forall (succ : N -> list N) fuel starts r,
+  (forall x y, In y (succ x) -> In x starts) ->
+  detect_from succ fuel starts = Some r ->
+  Forall (is_cycle succ) (cycs r) /\ (cycs r <> [] <-> exists x, rp succ x x).
+Proof.
+  intros succ fuel starts r Hs H. split; [exact (detect_sound succ fuel starts r H)|exact (detect_from_iff succ fuel starts r Hs H)].
+Qed.
+
+(* ... instantiated on a wait-for graph and pushed through DeadlockDetector::detect (length filter + cascading):
+   a deadlock is reported iff the graph has a cycle, each reported cycle is a cycle of the recorded relation and
+   "the victim it names belongs to that cycle" -- for cycles within max_cycle_length. *)
+Theorem C12_deadlock_report : forall g cs cfg pol ws pr lc,
+  detect_cycles g = Some cs -> enabled cfg = true ->
+  (forall c, In c cs -> short_enough (max_cycle cfg) c = true) ->
+  let ds := detect cfg (select_victim pol ws pr lc) cs in
+  (ds <> [] <-> exists x, rp (succs g) x x) /\
+  (forall c v, In (c, v) ds -> is_cycle (succs g) c /\ In v c).
+Proof. exact deadlock_report. Qed.
+
+Theorem C12_victim_in_cycle : forall pol ws pr lc cycle,
+  cycle <> [] -> In (select_victim pol ws pr lc cycle) cycle.
+Proof. exact select_victim_in. Qed.
+
+(* ---------------------------------------------------------------- non-vacuity *)
+(* a reachable state where tx 1 holds key 0 unexpired and tx 2 asks for keys [1;0] (hypotheses of the
+   refusal / one-holder theorems), with a wait edge 2 -> 1 recorded afterwards *)
+Example ex_state :
+  let s := mrun (init 30000 0) [OTryLockWait 1 [0] None] in
+  holder (now s) (tbl s) 0 = Some 1 /\
+  snd (mstep s (OTryLockWait 2 [1; 0] None)) = [1; 1; 0] /\
+  succs (gr (fst (mstep s (OTryLockWait 2 [1; 0] None)))) 2 = [1].
+Proof. vm_compute. repeat split. Qed.
+
+(* F-C12-waitleak as a model trace: tx 1 re-prepared (its lock carries handle 2, its vote only handle 1),
+   the refused tx 2 recorded an edge and has no vote handle at all *)
+Example ex_finish :
+  let s := mrun (init 30000 0) [OTryLockWait 1 [0] None; OTryLockWait 1 [0] None; OTryLockWait 2 [0] None] in
+  succs (gr s) 2 = [1] /\ holder (now s) (tbl s) 0 = Some 1 /\
+  succs (gr (fst (mstep s (OFinish 2 [])))) 2 = [] /\
+  holder (now s) (tbl (fst (mstep s (OFinish 1 [1])))) 0 = None.
+Proof. vm_compute. repeat split. Qed.
+
+(* a graph with a cycle: the DFS terminates within its fuel and reports it; the victim is in it *)
+Example ex_cycle :
+  let g := add_wait 0 3 (add_wait 0 2 (add_wait 0 1 wg_empty 1 2 None) 2 3 None) 3 1 None in
+  detect_cycles g = Some [[1; 2; 3]] /\
+  detect (D true 0 100 3) (select_victim 0 (started g) (prio g) None) [[1; 2; 3]] = [([1; 2; 3], 3)].
+Proof. vm_compute. split; reflexivity. Qed.
+
+Print Assumptions C12_conflicting_prepare_refused.
+Print Assumptions C12_grant_all_or_nothing.
+Print Assumptions C12_one_holder.
+Print Assumptions C12_release_leaves_nothing.
+Print Assumptions C12_finish_leaves_nothing.
+Print Assumptions C12_timeouts_leave_nothing.
+Print Assumptions C12_expiry.
+Print Assumptions C12_cycle_reported_iff_exists.
+Print Assumptions C12_deadlock_report.
+Print Assumptions C12_victim_in_cycle.
